@@ -127,6 +127,14 @@ MUTANTS = [
      "        elif len(self._value_collection) <= len(self._interval_events):",
      "        elif len(self._value_collection) <= 2 * len(self._interval_events):",
      []),
+    ("save_swallows_write_errors", "ir.py",
+     "        protobuf_file.write(self._to_protobuf().SerializeToString())",
+     "        try:\n            protobuf_file.write(self._to_protobuf().SerializeToString())\n        except OSError:\n            pass",
+     ["C01"]),
+    ("PRESERVING_message_built_before_header_is_written", "ir.py",
+     "        protobuf_file.write(GTIRB_MAGIC_CHARS)\n",
+     "        body = self._to_protobuf().SerializeToString()\n        protobuf_file.write(GTIRB_MAGIC_CHARS)\n",
+     []),
     ("loader_skips_entry_point_kind_check", "module.py",
      "            if not isinstance(entry_point, CodeBlock):",
      "            if entry_point is None:",
